@@ -491,6 +491,12 @@ func genC19(tier string, r *rng, emit func(string)) {
 		"new:cm:3,1:1;new:cm:2,1:2;lin:outer:0:1:safe", "new:cm:3:1;new:cm:2:2;lin:outer:0:1:safe;new:rm:2,2:0"} {
 		emit("prog f64 " + c)
 	}
+	// a refused Reshape (non-contiguous view, pending transpose) changes no tensor - not the view, not
+	// its parent
+	for _, c := range []string{"new:rm:3,4:0;slice:0:_/1.3.1;T:1:1,0;reshape:1:6;at:0:1,1", "new:rm:3,4:0;slice:0:_/0.2.1;T:1:1,0;reshape:1:2,3;clone:0",
+		"new:rm:2,3,4:0;slice:0:_/_/1.3.1;T:1:2,0,1;reshape:1:12;new:rm:2:0"} {
+		emit("prog f64 " + c)
+	}
 	// a rank-0 tensor used as the scalar operand of a safe operation is an operand like any other:
 	// it must come out unchanged (and stay usable) whatever the operation and the side
 	for _, op := range []string{"add", "sub", "mul", "div", "mod", "pow"} {
